@@ -30,14 +30,24 @@ pub struct SimAbort;
 pub enum Strategy {
     Uniform,
     /// PCT with the given priority change points (step indices)
-    Pct { change: Vec<u64> },
+    Pct {
+        change: Vec<u64>,
+    },
     /// stay on the current thread with probability (den-1)/den
-    Burst { den: usize },
+    Burst {
+        den: usize,
+    },
     /// preempt preferably right after a successful write of the running thread (between two
     /// related updates), otherwise stay with probability (den-1)/den
-    AfterWrite { den: usize },
+    AfterWrite {
+        den: usize,
+    },
     /// `tid` is descheduled from step `from` until all others are done (or `len` steps passed)
-    Stall { tid: usize, from: u64, len: u64 },
+    Stall {
+        tid: usize,
+        from: u64,
+        len: u64,
+    },
     /// follow the recorded schedule
     Replay,
 }
@@ -130,7 +140,10 @@ impl Probes {
             ("cas_fail_tree_entry", self.cas_fail_tree),
             ("cas_fail_local_entry", self.cas_fail_local),
             ("huge_marker_set", self.huge_marker_set),
-            ("huge_split_marker_to_zero", self.huge_marker_cleared_to_zero),
+            (
+                "huge_split_marker_to_zero",
+                self.huge_marker_cleared_to_zero,
+            ),
             ("huge_marker_freed", self.huge_marker_freed),
             ("bitfield_row_filled", self.row_fill),
             ("bitfield_row_cleared", self.row_clear),
@@ -149,12 +162,17 @@ impl Probes {
 #[derive(Clone, Copy, Debug, PartialEq, Eq)]
 pub enum AbortReason {
     StepCap,
-    SoloBudget { tid: usize, steps: u64 },
+    SoloBudget {
+        tid: usize,
+        steps: u64,
+    },
     /// one call took more atomic steps of its own than any bounded retry can explain
-    CallBudget { tid: usize, steps: u64 },
+    CallBudget {
+        tid: usize,
+        steps: u64,
+    },
     Foreign,
 }
-
 
 pub struct World {
     pub n: usize,
@@ -225,7 +243,10 @@ impl World {
             steps: 0,
             step_cap: 200_000,
             call_steps: vec![0; n],
-            call_cap: 20_000,
+            call_cap: std::env::var("LLSIM_CALL_CAP")
+                .ok()
+                .and_then(|s| s.parse().ok())
+                .unwrap_or(20_000),
             last_write: vec![false; n],
             prev_load: vec![false; n],
             sched_log: Vec::new(),
@@ -314,7 +335,10 @@ impl World {
             && self.alive[t]
         {
             t
-        } else if self.strat == Strategy::Replay && self.replay_pos >= self.replay.len() && self.replay_then.is_some() {
+        } else if self.strat == Strategy::Replay
+            && self.replay_pos >= self.replay.len()
+            && self.replay_then.is_some()
+        {
             // the recorded prefix is used up: continue with a seeded strategy
             self.strat = self.replay_then.take().unwrap();
             return self.choose(cur);
@@ -342,12 +366,21 @@ impl World {
                 }
                 Strategy::AfterWrite { den } => {
                     let wrote = cur_ok && self.last_write.get(cur).copied().unwrap_or(false);
-                    let switch = if wrote { self.rng.chance(1, 2) } else { self.rng.chance(1, *den) };
+                    let switch = if wrote {
+                        self.rng.chance(1, 2)
+                    } else {
+                        self.rng.chance(1, *den)
+                    };
                     if cur_ok && !switch {
                         cur
                     } else {
-                        let others: Vec<usize> = alive.iter().copied().filter(|&t| t != cur).collect();
-                        if others.is_empty() { cur } else { others[self.rng.below(others.len())] }
+                        let others: Vec<usize> =
+                            alive.iter().copied().filter(|&t| t != cur).collect();
+                        if others.is_empty() {
+                            cur
+                        } else {
+                            others[self.rng.below(others.len())]
+                        }
                     }
                 }
                 Strategy::Pct { change } => {
@@ -400,6 +433,14 @@ impl World {
         }
         if tid < self.n && self.cur_call[tid].is_some() {
             self.call_steps[tid] += 1;
+            if self.call_steps[tid] + 80 > self.call_cap
+                && std::env::var_os("LLSIM_TRACE_TAIL").is_some()
+            {
+                eprintln!(
+                    "tail step {} {:?} addr {:#x} (lower {:#x} trees {:#x})",
+                    self.call_steps[tid], op, addr, self.lower.start, self.trees.start
+                );
+            }
             if self.call_steps[tid] > self.call_cap && self.aborted.is_none() {
                 self.aborted = Some(AbortReason::CallBudget {
                     tid,
